@@ -138,6 +138,7 @@ class SSHChannel(Generic[AnyStr], SSHPacketHandler):
         self._recv_window = window
         self._recv_pktsize = max_pktsize
         self._recv_paused: Union[bool, str] = 'starting'
+        self._session_started = False
         self._recv_buf: List[Tuple[bytes, DataType]] = []
         self._recv_buf_len = 0
 
@@ -256,6 +257,18 @@ class SSHChannel(Generic[AnyStr], SSHPacketHandler):
 
         if self._session is not None:
             # pylint: disable=broad-except
+
+            # An EOF followed by a close which arrived before the
+            # session began reading hasn't been reported yet
+            if self._recv_eof_on_close and self._session_started and not exc:
+                self._recv_eof_on_close = False
+
+                try:
+                    self._session.eof_received()
+                except Exception:
+                    self.logger.debug1('Uncaught exception in session ignored',
+                                       exc_info=sys.exc_info)
+
             try:
                 self._session.connection_lost(exc)
             except Exception:
@@ -429,6 +442,19 @@ class SSHChannel(Generic[AnyStr], SSHPacketHandler):
                 if self._session is not None:
                     self._session.eof_received()
 
+        if self._recv_state == 'close_pending' and \
+                self._recv_paused == 'starting':
+            if self._session_started:
+                # The session is about to start reading. What the peer
+                # sent before it closed the channel is delivered then.
+                return
+            elif self._request_waiters:
+                # The peer closed the channel without answering a request
+                # the start of the session is waiting for. It won't be
+                # started, so there's nobody to deliver received data to.
+                self._recv_buf = []
+                self._recv_buf_len = 0
+
         if not self._recv_buf and self._recv_state == 'close_pending':
             self._recv_state = 'closed'
             self._loop.call_soon(self._cleanup, exc)
@@ -559,6 +585,7 @@ class SSHChannel(Generic[AnyStr], SSHPacketHandler):
 
         if result and request in {'shell', 'exec', 'subsystem'}:
             assert self._session is not None
+            self._session_started = True
             self._session.session_started()
             self.resume_reading()
 
@@ -576,12 +603,21 @@ class SSHChannel(Generic[AnyStr], SSHPacketHandler):
         # Data received before the connection closed may still be waiting
         # here for a paused session to resume reading. Deliver it now
         # regardless of the pause, as it would otherwise be silently lost.
-        if self._recv_paused != 'starting':
+        if self._recv_paused != 'starting' or self._session_started:
             try:
                 while self._recv_buf:
                     data, datatype = self._recv_buf.pop(0)
                     self._recv_buf_len -= len(data)
                     self._deliver_data(data, datatype)
+
+                # An EOF which was waiting for this data to be delivered
+                # is reported as well
+                if self._session is not None and not exc and \
+                        (self._recv_state == 'eof_pending' or
+                         (self._recv_state == 'close_pending' and
+                          self._recv_eof_on_close)):
+                    self._recv_eof_on_close = False
+                    self._session.eof_received()
             except ProtocolError as decode_exc:
                 exc = exc or decode_exc
             except Exception: # pylint: disable=broad-except
@@ -1419,6 +1455,7 @@ class SSHClientChannel(SSHChannel, Generic[AnyStr]):
             raise ChannelOpenError(OPEN_REQUEST_SESSION_FAILED,
                                    'Session request failed')
 
+        self._session_started = True
         self._session.session_started()
         self._conn.create_task(self._start_reading(), self.logger)
 
@@ -2191,6 +2228,7 @@ class SSHForwardChannel(SSHChannel, Generic[AnyStr]):
         await super()._finish_open_request(result)
 
         if self._session is not None:
+            self._session_started = True
             self._session.session_started()
             self.resume_reading()
 
@@ -2207,6 +2245,7 @@ class SSHForwardChannel(SSHChannel, Generic[AnyStr]):
         self._session = session_factory()
         self._session.connection_made(self)
         self._service_queued_requests()
+        self._session_started = True
         self._session.session_started()
 
         assert self._conn is not None
